@@ -4,14 +4,90 @@ From MM Require Import Model.RouteTable Proofs.RouteTableBase Proofs.RouteTableP
 Import ListNotations.
 Local Open Scope N_scope.
 
-(** (first step) forward-key lookup on a table that satisfies the bucket
-    invariant: nothing iff nothing is stored for the key, otherwise a stored
-    route of lowest metric. *)
-Theorem C09_forward_lookup_table_partial : forall (t : ftable) k,
-  table_inv same_origin (fun _ _ => True) t ->
-  match tlookup str_eqb k t with
-  | None => forall x, ~ stored str_eqb t k x
-  | Some r => stored str_eqb t k r /\ forall x, stored str_eqb t k x -> e_metric r <= e_metric x
+(** Vocabulary (defined in Proofs/RouteTableProofs.v, repeated here):
+    - [dstored m x]: x is an element of some bucket of the exact or of the
+      wildcard map of the domain table of m;
+    - [exact_match x d]: x is not a wildcard and its pattern, lower-cased, is d;
+    - [wild_match x d]: x is a wildcard "*.base", base is not empty, and
+      d = label ++ "." ++ lower base for a non-empty label that contains no
+      dot (exactly one label deep);
+    - names and patterns are byte strings, [lower] maps A-Z to a-z (the
+      statement is about ASCII names; Go's strings.ToLower differs on
+      non-ASCII input, which is outside the model). *)
+
+(** For every history and every name: the lookup returns a stored route r such
+    that either r is an exact pattern for the lower-cased name with the lowest
+    metric of all stored exact patterns for it, or no exact pattern is stored
+    for the name and r is a wildcard exactly one label above it with the
+    lowest metric of all such wildcards; or it returns nothing and no stored
+    pattern matches in either way. Wildcards two or more labels above the
+    name never match (they are not [wild_match]). *)
+Theorem C09_domain_lookup : forall (local : N) (ops : list op) (name : str),
+  let m := run local ops in
+  let d := lower name in
+  match snd (step local m (ODLookup name)) with
+  | FNone => forall x, dstored m x -> ~ exact_match x d /\ ~ wild_match x d
+  | FDom r =>
+      dstored m r /\
+      ((exact_match r d /\ forall x, dstored m x -> exact_match x d -> e_metric r <= e_metric x) \/
+       (wild_match r d /\ (forall x, dstored m x -> ~ exact_match x d) /\
+        forall x, dstored m x -> wild_match x d -> e_metric r <= e_metric x))
+  | _ => False
   end.
-Proof. exact fwd_lookup_table. Qed.
-Print Assumptions C09_forward_lookup_table_partial.
+Proof. exact domain_over_histories. Qed.
+Print Assumptions C09_domain_lookup.
+
+(** the definitions used above, spelled out *)
+Theorem C09_vocabulary : forall (m : mgr) (x : entry drec) (d : str),
+  (exact_match x d <-> dr_wild (e_data x) = false /\ lower (dr_pattern (e_data x)) = d) /\
+  (wild_match x d <->
+     dr_wild (e_data x) = true /\
+     exists label, label <> [] /\ ~ In dot label /\ dr_base (e_data x) <> [] /\
+                   d = label ++ dot :: lower (dr_base (e_data x))) /\
+  (dstored m x <-> route_in (m_dexact m) x \/ route_in (m_dwild m) x).
+Proof. exact vocabulary_c09. Qed.
+
+(** the wildcard flag and base of every stored route are those of its pattern
+    text: "*." + base after trimming blanks *)
+Theorem C09_stored_flags_follow_pattern : forall (local : N) (ops : list op) x,
+  dstored (run local ops) x ->
+  parse_pattern (dr_pattern (e_data x)) = (dr_wild (e_data x), dr_base (e_data x)).
+Proof. exact dstored_pattern. Qed.
+Print Assumptions C09_stored_flags_follow_pattern.
+
+Theorem C09_wildcard_pattern_shape : forall pat base,
+  parse_pattern pat = (true, base) <-> trim pat = star :: dot :: base.
+Proof. exact parse_pattern_wild. Qed.
+
+(** case-insensitive: two names that differ only in letter case give the
+    same result in every state *)
+Theorem C09_case_insensitive : forall (local : N) (m : mgr) (n1 n2 : str),
+  lower n1 = lower n2 -> step local m (ODLookup n1) = step local m (ODLookup n2).
+Proof. exact domain_case_insensitive. Qed.
+Print Assumptions C09_case_insensitive.
+
+(** Forward-key lookup, for every history and key: nothing iff no route is
+    stored for the key, otherwise a stored route for that key with the lowest
+    metric. [stored eqb t k x]: x is an element of the bucket of key k. *)
+Theorem C09_forward_lookup : forall (local : N) (ops : list op) (key : str),
+  let m := run local ops in
+  match snd (step local m (OFLookup key)) with
+  | FNone => forall x, ~ stored str_eqb (m_fwd m) key x
+  | FFwd k r => k = key /\ stored str_eqb (m_fwd m) key r /\
+                forall x, stored str_eqb (m_fwd m) key x -> e_metric r <= e_metric x
+  | _ => False
+  end.
+Proof. exact forward_over_histories. Qed.
+Print Assumptions C09_forward_lookup.
+
+(** Agent-presence lookup, likewise. *)
+Theorem C09_agent_lookup : forall (local : N) (ops : list op) (agent : N),
+  let m := run local ops in
+  match snd (step local m (OALookup agent)) with
+  | FNone => forall x, ~ stored N.eqb (m_agent m) agent x
+  | FAgent k r => k = agent /\ stored N.eqb (m_agent m) agent r /\
+                  forall x, stored N.eqb (m_agent m) agent x -> e_metric r <= e_metric x
+  | _ => False
+  end.
+Proof. exact agent_over_histories. Qed.
+Print Assumptions C09_agent_lookup.
